@@ -155,6 +155,11 @@ func (this *contractExecutor) Execute(transaction *types.Transaction, header *ty
 				gasLimit = p026defaultGasLimit
 			}
 		}
+		// the intrinsic gas must fit into the limit actually granted, not only into the one declared
+		if gasLimit < intrinsicGas {
+			this.logger.Errorf("[ContractExecutor]gas limit too low,gas limit:%d,intrinsic gas:%d", gasLimit, intrinsicGas)
+			return false, ErrIntrinsicGas.Error()
+		}
 		vmCtx.GasLimit = gasLimit - intrinsicGas
 	}
 
